@@ -233,8 +233,16 @@ func (f *Failover) Get(
 					"key", key)
 			}
 
-			if value != nil && !f.config.FailHard {
-				return value, nil
+			if !f.config.FailHard {
+				if value != nil {
+					return value, nil
+				}
+
+				// Stale value is served regardless of MaxStaleness if update fails.
+				var errExpired ErrWithExpiredItem
+				if errors.As(err, &errExpired) {
+					return errExpired.Value(), nil
+				}
 			}
 		}
 
